@@ -4,6 +4,7 @@ import (
 	"fmt"
 	"go/token"
 	"go/types"
+	"strings"
 
 	"golang.org/x/tools/go/ssa"
 )
@@ -119,6 +120,33 @@ func runC05(p *Prog, r *Report) {
 			}
 		}
 		r.Check(first, "D1-triple", fa.key+":all-layers", p.Pos(ldAlloc.Pos()), "one details record per chain layer, in order", "the details list is not built for every chain layer starting from the first: list positions and layer indices disagree")
+	}
+	// position k of the list holds the record built for layer k: every iteration appends the record it
+	// just built (not a looked-up or shared one), and no iteration ends without appending
+	napp := 0
+	forEachInstr(fn, func(_ *ssa.BasicBlock, _ int, in ssa.Instruction) {
+		if !isAppendOf("LayerDetails")(in) {
+			return
+		}
+		c := in.(*ssa.Call)
+		napp++
+		okEl := false
+		for _, a := range flattenVariadic(c.Call.Args[1:]) {
+			if a == ssa.Value(ldAlloc) {
+				okEl = true
+			}
+		}
+		r.Check(okEl && loopHeaderOf(c.Block()) == loopHeaderOf(ldAlloc.Block()), "D1-triple", fa.key+":list-element-is-this-layers-record", p.Pos(c.Pos()), "each iteration appends the record it built for its own layer", "the per-layer details list does not get, at position i, the record built for layer i (a shared or looked-up record is appended instead): packages of one layer are reported with another layer's index and command")
+	})
+	r.Check(napp == 1, "D1-triple", fa.key+":one-append", p.Pos(ldAlloc.Pos()), "the list is appended to in exactly one place", fmt.Sprintf("the per-layer details list is appended to in %d places", napp))
+	if hdr := loopHeaderOf(ldAlloc.Block()); hdr != nil {
+		var sk []string
+		for _, x := range loopSkips(fn, isAppendOf("LayerDetails")) {
+			if !strings.Contains(x, "builtin.len(param") {
+				sk = append(sk, x)
+			}
+		}
+		r.Check(len(sk) == 0, "D1-triple", fa.key+":no-layer-skipped", p.Pos(hdr.Instrs[0].Pos()), "every chain layer gets a record", fmt.Sprintf("an iteration can end without appending a record (%v): list positions and layer indices drift apart", sk))
 	}
 	// every store to Package.LayerDetails is an element of the list (IndexAddr load of the list)
 	nst := 0
